@@ -4,7 +4,7 @@ package geom
 
 // C13 (hull structure) and the C20 clause "ConvexHull is total".
 
-//@ prop C13,C20
+//@ prop C13,C20,C10
 
 //@ pred CrossPQS(p, q, s) = (q.X - p.X) * (s.Y - q.Y) - (q.Y - p.Y) * (s.X - q.X)
 
